@@ -513,6 +513,90 @@ def run(db: DB, rep: Report) -> None:
     if n_e10 < 1:
         raise AnalysisError("Program.__init__ no longer fills self.tensors (E10)")
 
+    # ---- E12: a loop order that projects into the output is rejected whenever the output's next
+    # rank is not the loop rank - a plain inequality of the two names, nothing weaker
+    rep.rule("E12", "'Cannot project into the output tensor' fires whenever the output's next rank "
+             "differs from the loop rank", 1)
+    mie = db.func("teaal.trans.equation.Equation.make_iter_expr")
+    n_e12 = 0
+    for r in [n for n in walk_no_nested(mie.node) if isinstance(n, ast.Raise) and _is_value_error(n) and
+              "project into the output" in norm(n).lower()]:
+        n_e12 += 1
+        gs = paths.guards(r, stop=mie.node)
+        rank_p = mie.call_params[0]
+        test, pol = gs[-1] if gs else (None, True)
+        atoms12 = paths.conjuncts(test, pol) if test is not None else []
+        plain, weaker, why = False, False, ""
+        if len(atoms12) == 1:
+            a, p_ = atoms12[0]
+            if isinstance(a, ast.Compare) and len(a.ops) == 1 and \
+                    ((isinstance(a.ops[0], ast.NotEq) and p_) or (isinstance(a.ops[0], ast.Eq) and not p_)):
+                sides = {paths.flow_text(a.left, r, mie.node), paths.flow_text(a.comparators[0], r, mie.node)}
+                plain = rank_p in sides and any(".peek" in x for x in sides)
+            elif isinstance(a, ast.Name) and not p_:
+                # not same: a flag computed (possibly by an inlined helper) on several grounds
+                vals = [v_ for st_, v_ in paths.defs_of(mie.node, a.id) if v_ is not None]
+                accepting = [v_ for v_ in vals if not (isinstance(v_, ast.Constant) and v_.value is False)]
+                if len(accepting) == 1 and isinstance(accepting[0], ast.Compare) and \
+                        isinstance(accepting[0].ops[0], ast.Eq) and len(accepting[0].ops) == 1:
+                    plain = True
+                elif len(accepting) > 1:
+                    weaker = True
+                    why = "the two names count as the same rank on %d different grounds (%s)" % (
+                        len(accepting), "; ".join(norm(v_)[:50] for v_ in accepting))
+            elif isinstance(a, ast.Call) and not p_:
+                # not same(x, y): the helper must return True for equal names only
+                for g in db.resolve_call(a, mie):
+                    rets = [x for x in walk_no_nested(g.node) if isinstance(x, ast.Return) and x.value is not None]
+                    accepting = [x for x in rets if not (isinstance(x.value, ast.Constant) and x.value.value is False)]
+                    if len(accepting) > 1 or any(isinstance(x.value, ast.BoolOp) and isinstance(x.value.op, ast.Or)
+                                                 for x in accepting):
+                        weaker = True
+                        why = "%s returns True on %d different grounds" % (g.short, max(2, len(accepting)))
+        elif len(atoms12) > 1:
+            weaker = True
+            why = "the raise needs %d conditions at once" % len(atoms12)
+        rep.check("E12", plain, db.loc(r), mie.short, "reject:project-into-output",
+                  "raised whenever output.peek_clean() != %s" % rank_p,
+                  "the rejection of a loop order that projects into the output no longer fires on every "
+                  "mismatch of the output's next rank and the loop rank (%s): such a specification compiles, "
+                  "and the emitted loop populates the output under the wrong rank" % (why or "guard " + norm(test)[:60]),
+                  decided=plain or weaker)
+    if n_e12 < 1:
+        rep.undecided("E12", db.loc(mie.node), mie.short, "the 'Cannot project into the output tensor' raise was not found")
+
+    # ---- E13: the accelerator configuration is resolved (and its absence reported) for every
+    # Einsum of the program, not only for those the bindings happen to mention
+    rep.rule("E13", "the configuration of every Einsum of the program is resolved when the hardware is built", 1)
+    hwi = db.func("teaal.ir.hardware.Hardware.__init__")
+    n_e13 = 0
+    for n in walk_no_nested(hwi.node):
+        if not (isinstance(n, ast.Call) and isinstance(n.func, ast.Attribute) and n.func.attr == "get_config"
+                and n.args and isinstance(n.args[0], ast.Name)):
+            continue
+        var = n.args[0].id
+        loops = [p_ for p_ in paths.parents(n, hwi.node) if isinstance(p_, (ast.For, ast.comprehension, ast.DictComp,
+                                                                             ast.ListComp))]
+        its = []
+        for p_ in loops:
+            gens = p_.generators if isinstance(p_, (ast.DictComp, ast.ListComp)) else [p_]
+            for g_ in gens:
+                if var in paths.load_names(g_.target) | {x.id for x in ast.walk(g_.target) if isinstance(x, ast.Name)}:
+                    its.append(g_.iter)
+        if not its:
+            continue
+        n_e13 += 1
+        txt = paths.flow_text(its[0], n, hwi.node)
+        from_prog = "get_all_einsums()" in txt
+        from_bind = "bindings" in txt.lower()
+        rep.check("E13", from_prog and not from_bind, db.loc(n), hwi.short, "config-for-every-einsum",
+                  "get_config is asked for every Einsum of the program",
+                  "Hardware.__init__ resolves the configuration only for %s: an Einsum the bindings do not "
+                  "mention is never looked up, so 'Accelerator config and prefix missing' is not raised and "
+                  "the specification is accepted" % txt[:60], decided=from_prog or from_bind)
+    if n_e13 < 1:
+        rep.undecided("E13", db.loc(hwi.node), hwi.short, "no per-Einsum get_config lookup found in Hardware.__init__")
+
     # ---- E6 guards range over the whole collection --------------------------
     rep.rule("E6", "loops carrying a guard iterate the whole collection with no early exit "
              "ahead of the test", 5)
@@ -649,6 +733,15 @@ def mutants(db: DB):
     pt = "teaal/ir/partitioning.py"
     eq = "teaal/ir/equation.py"
     return [
+        M("configs resolved for the Einsums named in the bindings only (C18-u3)", "teaal/ir/hardware.py",
+          "        for einsum in self.program.get_all_einsums():\n            self.configs[einsum] = self.bindings.get_config(einsum)",
+          "        for einsum in self.bindings.get_bindings():\n            self.configs[einsum] = self.bindings.get_config(einsum)", "E13"),
+        M("projection into the output tolerated for co-partitioned ranks (C18-u2)", "teaal/trans/equation.py",
+          "            if trank != rank:\n                raise ValueError(\n                    \"Cannot project into the output tensor.",
+          "            part_ = self.program.get_partitioning()\n            if trank != rank and part_.partition_rank((trank,)) != part_.partition_rank((rank,)):\n                raise ValueError(\n                    \"Cannot project into the output tensor.", "E12"),
+        M("benign: output projection test written as not ==", "teaal/trans/equation.py",
+          "            if trank != rank:\n                raise ValueError(\n                    \"Cannot project into the output tensor.",
+          "            if not (rank == trank):\n                raise ValueError(\n                    \"Cannot project into the output tensor.", (), benign=True),
         M("revert F17 fix (KeyError for an unlisted Einsum)", "teaal/parse/bindings.py",
           "        # Note: an Einsum with no entry in the bindings has no config either\n        if einsum not in self.configs:\n            raise ValueError(\n                \"Accelerator config and prefix missing for Einsum \" + einsum)\n\n", "", "E1"),
         M("revert F15 fix (only the single-rank key is looked up)", "teaal/ir/partitioning.py",
